@@ -3,7 +3,10 @@
 Generated: tagged content (vp/textgen.py) whose sensitive tokens are wrapped in class-aware
 delimiters, x configuration (exclusion patterns plain / regex with POSIX classes, keywords, system
 name, obfuscation switches, per-spec exemptions, allow-list, width mode) x entry point
-(clean_content on a list, on single strings, clean_file, ContentProvider.write under HostContext).
+(clean_content on a list, on single strings, clean_file, ContentProvider.write under HostContext)
+x how the cleaner learns the machine's name (handed in | worked out by the cleaner itself from the
+operating system's look-ups, which are emulated for a machine of that name - the way every caller in
+the repository builds it) x spelling of the name (lower case | capitals in the short name / the domain).
 
 Oracle: non-leak predicates on the output *after masking every substitute the cleaner reports
 having issued* (mapping() of each obfuscator + the password mask):
@@ -19,6 +22,7 @@ having issued* (mapping() of each obfuscator + the password mask):
  (f) no claimed MAC other than all-zero/broadcast occurs (same fabricated-address scan).
 "Claimed" (textgen.claimed) = well-formed and not glued to characters of the token's own syntax;
 everything else is counted under an `unclaimed:*` label and not asserted (DESIGN C08 X)."""
+import contextlib
 import os
 import re
 import shutil
@@ -38,7 +42,11 @@ RULE = ("tagged lines built from delimited tokens (IPv4 incl. textual prefix/suf
         "labels), password keys with every documented separator) drawn from per-case pools so that tokens recur, "
         "x {plain | regex(+POSIX class) exclusion patterns derived from slices of the content, keyword list, "
         "obfuscate/hostname/mac/ipv6 switches, no_obfuscate subsets, no_redact, allow-list, width mode} x "
-        "{clean_content(list), clean_content(str), clean_file, ContentProvider.write under HostContext}. "
+        "{clean_content(list), clean_content(str), clean_file, ContentProvider.write under HostContext} x "
+        "{system name handed to the cleaner | not handed in: socket.gethostname/getfqdn/gethostbyname_ex emulated for "
+        "a machine of that name (23 configurations: short or full `hostname`, resolver entry / none / loopback "
+        "alias), optional display_name in the configuration} x {name spelt in lower case | capitals in the short "
+        "name and/or the domain, the same spelling in configuration, look-ups and content}. "
         "Non-trivial: >= 1 claimed token whose class is enabled and (>= 2 token classes on one line, or a token at "
         "line start/end, or a repeated token, or two IPs where one is a textual prefix/suffix of the other, or a "
         "keyword inside a host name, or a line that had to be redacted next to one that had to stay); distinct by "
@@ -51,7 +59,11 @@ ASSUMPTIONS = [
     "an occurrence is 'recognised' only if it is well formed and delimited as described in DESIGN.md C08 X "
     "(textgen.claimed)",
     "the configuration object only needs the attributes obfuscate, obfuscate_hostname, obfuscate_ipv6, "
-    "obfuscate_mac (types.SimpleNamespace stands in for InsightsConfig)",
+    "obfuscate_mac (+ display_name) (types.SimpleNamespace stands in for InsightsConfig)",
+    "when no name is handed to the cleaner, 'the system's host name' is what the machine's own look-ups "
+    "(socket.gethostname / getfqdn / gethostbyname_ex, replaced by stubs for the duration of a case) report; every "
+    "look-up answers with the machine's full name, (gethostname only) its short name, a loopback alias or a "
+    "resolver failure, and at least one of them answers with the full name",
 ]
 EXCLUDED = [
     "MAC glued to ':' '-' or a hex digit (would be a longer address; the pattern's look-arounds exclude it)",
@@ -65,6 +77,11 @@ EXCLUDED = [
     "fabricated-address scan is skipped when an original lies in 10.230.0.0/16 (substitute range; chained "
     "str.replace there is finding #7, property C09)",
     "empty keyword, keywords with surrounding blanks, exclusion patterns containing a newline",
+    "operating-system configurations in which the look-ups disagree about the machine's name: a spelling that "
+    "differs in letter case between look-ups / from the content (X: case variants of the system name), a canonical "
+    "name (gethostbyname_ex) that is the *short* name while getfqdn() knows a longer one (/etc/hosts listing the "
+    "short name first: which of the two is 'the fully-qualified name' is then undefined; observed: the cleaner "
+    "takes the short one and leaves the domain alone), no look-up knowing the domain at all",
 ]
 
 MASK = "\x00"
@@ -94,6 +111,17 @@ def selftest():
     for name, rx in POSIX.items():
         for ch in " \tazAZ09_#.:-":
             assert bool(re.match(rx + r"\Z", ch)) == (ch in _POSIX_MEMBERS[name]), (name, ch)
+    # emulated operating system: literal answers of the symbolic configurations
+    assert os_answers("Web01.Corp.io", {"gethostname": "short", "getfqdn": "echo", "byname": "gaierror"}) == ("Web01", "Web01", None)
+    assert os_answers("Web01.Corp.io", {"gethostname": "fqdn", "getfqdn": "localhost", "byname": "fqdn"}) == \
+        ("Web01.Corp.io", "localhost", "Web01.Corp.io")
+    assert len(OS_CONFIGS) == 32 and len(OS_CONFIGS_FULL) == 23
+    assert not os_reports_fqdn("a.b", {"gethostname": "short", "getfqdn": "echo", "byname": "localhost"})
+    assert all(os_reports_fqdn("vm", c) for c in OS_CONFIGS)
+    w = recase_world({"fqdn": "webKEY01.int.big-co.io", "hosts": ["db.x_1.int.big-co.io"], "keywords": ["KEY"]}, "cap", "cap")
+    assert w["fqdn"] == "WebKEY01.Int.Big-co.Io" and w["hosts"] == ["db.x_1.Int.Big-co.Io"], w
+    w = recase_world({"fqdn": "vm", "hosts": []}, "upper", "tld")
+    assert w["fqdn"] == "VM" and w["hosts"] == [], w
     # the masking step: a substitute hides exactly itself
     assert _mask_line("x 10.230.230.1 10.230.230.15 y", ["10.230.230.1"], []) == "x \x00 10.230.230.15 y"
 
@@ -114,7 +142,75 @@ def build_cleaner(case):
             rm["patterns"] = list(pat["items"])
         else:
             rm["patterns"] = {"regex": [i["conf"] for i in pat["items"]]}
-    return Cleaner(cfg, rm, case["fqdn"])
+    ns = case.get("name_source")
+    if not ns:
+        return Cleaner(cfg, rm, case["fqdn"])
+    # the way every caller in the repository builds it (collect(), InsightsConnection._clean_facts): no
+    # name is handed in, the cleaner asks the operating system (emulated_os) for the machine's name
+    if ns.get("display_name"):
+        cfg.display_name = ns["display_name"]       # a label for the inventory, not the machine's name
+    if ns.get("arg") == "none":
+        return Cleaner(cfg, rm, None)
+    return Cleaner(cfg, rm)
+
+
+# ---- the machine's own name as the operating system reports it ----------------------------------------
+#
+# case["name_source"] = None (the name is handed to the cleaner) or a *symbolic* description of what the
+# three look-ups the client uses (socket.gethostname / getfqdn / gethostbyname_ex) answer on this machine;
+# the literal answers are derived from case["fqdn"], so every look-up that names the machine spells the
+# name exactly as the content does (other spellings are outside the statement, DESIGN C08 X).
+
+OS_GETHOSTNAME = ["short", "fqdn"]                                       # `hostname` set to the short / the full name
+OS_GETFQDN = ["fqdn", "echo", "localhost", "localhost.localdomain"]      # echo = no resolver entry: getfqdn() hands back gethostname()
+OS_BYNAME = ["fqdn", "gaierror", "localhost", "localhost.localdomain"]   # canonical name of gethostbyname_ex(gethostname())
+
+
+def os_answers(fqdn, ns):
+    """-> (gethostname, getfqdn, canonical name or None = the look-up fails)"""
+    short = fqdn.split(".")[0]
+    gh = fqdn if ns["gethostname"] == "fqdn" else short
+    fq = {"fqdn": fqdn, "echo": gh}.get(ns["getfqdn"], ns["getfqdn"])
+    ex = {"fqdn": fqdn, "gaierror": None}.get(ns["byname"], ns["byname"])
+    return gh, fq, ex
+
+
+def os_reports_fqdn(fqdn, ns):
+    """the machine's full name is known to the operating system: at least one look-up answers with it"""
+    gh, fq, ex = os_answers(fqdn, ns)
+    return fqdn in (gh, fq, ex)
+
+
+OS_CONFIGS = [{"gethostname": a, "getfqdn": b, "byname": c} for c in OS_BYNAME for b in OS_GETFQDN for a in OS_GETHOSTNAME]
+OS_CONFIGS_FULL = [c for c in OS_CONFIGS if os_reports_fqdn("a.b", c)]
+
+
+@contextlib.contextmanager
+def emulated_os(case):
+    """only the operating system is emulated: the three socket look-ups answer what a machine called
+    case["fqdn"] answers; restored afterwards (workers are single-threaded processes)"""
+    ns = case.get("name_source")
+    if not ns:
+        yield
+        return
+    import socket
+    gh, fq, ex = os_answers(case["fqdn"], ns)
+
+    def byname(*a, **kw):
+        if ex is None:
+            raise socket.gaierror(-2, "Name or service not known")
+        if ex.startswith("localhost"):
+            return (ex, ["localhost", gh], ["127.0.0.1"])
+        return (ex, [gh] if gh != ex else [], ["192.0.2.7"])
+
+    saved = (socket.gethostname, socket.getfqdn, socket.gethostbyname_ex)
+    socket.gethostname = lambda: gh
+    socket.getfqdn = lambda *a, **kw: fq
+    socket.gethostbyname_ex = byname
+    try:
+        yield
+    finally:
+        socket.gethostname, socket.getfqdn, socket.gethostbyname_ex = saved
 
 
 def run_entry(case, cleaner, lines):
@@ -229,12 +325,13 @@ def _pattern_hits(case, lines):
 
 def check_clean(case):
     lines = tg.render(case["lines"])
-    cleaner = build_cleaner(case)
-    if case.get("prelude"):
-        # one cleaner serves a whole collection: a spec exempt from obfuscation (hundreds of shipped specs
-        # carry such a list) was cleaned by it before this one - with harmless content of its own
-        cleaner.clean_content(["zq prelude line", "zq second"], no_obfuscate=list(case["prelude"]), no_redact=True)
-    out = run_entry(case, cleaner, lines)
+    with emulated_os(case):
+        cleaner = build_cleaner(case)
+        if case.get("prelude"):
+            # one cleaner serves a whole collection: a spec exempt from obfuscation (hundreds of shipped specs
+            # carry such a list) was cleaned by it before this one - with harmless content of its own
+            cleaner.clean_content(["zq prelude line", "zq second"], no_obfuscate=list(case["prelude"]), no_redact=True)
+        out = run_entry(case, cleaner, lines)
     for o in out:
         if not isinstance(o, str):
             raise Violation("output line is not a string", got=repr(o)[:200])
@@ -251,6 +348,27 @@ def check_clean(case):
     }
     labels = set(["entry=" + case["entry"]])
     details = dict(input=lines, output=out, no_obfuscate=sorted(no_obf), switches=obf, fqdn=case["fqdn"])
+    ns = case.get("name_source")
+    if ns:
+        gh, fq, ex = os_answers(case["fqdn"], ns)
+        details["name_source"] = ("no name handed to the cleaner; the operating system answers gethostname()=%r, "
+                                  "getfqdn()=%r, gethostbyname_ex()[0]=%s; display_name=%r"
+                                  % (gh, fq, repr(ex) if ex is not None else "<gaierror>", ns.get("display_name")))
+        labels.add("name=system")
+        labels.add("os:%s/%s/%s" % (ns["gethostname"], ns["getfqdn"], ns["byname"]))
+        if ns.get("display_name"):
+            labels.add("name=system:display-name-configured")
+        if not os_reports_fqdn(case["fqdn"], ns):
+            # (hand-written case) no look-up knows the machine's full name: which name "the system's
+            # fully-qualified host name" is, is then not defined by anything the machine reports
+            on["hostname"] = False
+            labels.add("os:full-name-not-reported(host clauses skipped)")
+    else:
+        labels.add("name=explicit")
+    if case["fqdn"] != case["fqdn"].lower():
+        labels.add("sysname:upper-case-letters" + (":system" if ns else ":explicit"))
+        if "." in case["fqdn"] and case["fqdn"].split(".", 1)[1] != case["fqdn"].split(".", 1)[1].lower():
+            labels.add("sysname:upper-case-domain")
 
     out_tags = set()
     for o in out:
@@ -446,7 +564,7 @@ def check_clean(case):
     nontrivial = (bool(active) and (multi or edge or repeated or prefix_pair or kw_in_host)) or mixed_redact
     key = {"lines": lines, "entry": case["entry"], "obf": obf, "no_obf": sorted(no_obf), "kw": kws,
            "pat": case.get("patterns"), "nr": bool(case.get("no_redact")), "al": case.get("allowlist"),
-           "w": bool(case.get("width")), "fqdn": case["fqdn"]}
+           "w": bool(case.get("width")), "fqdn": case["fqdn"], "ns": case.get("name_source")}
     return {"nontrivial": nontrivial, "labels": sorted(labels), "key": key}
 
 
@@ -568,9 +686,49 @@ def _patterns(draw, rendered):
     return {"mode": "regex", "items": [draw(_regex_item(rendered)) for _ in range(n)]}
 
 
+_SHORT_STYLES = ["asis"] * 10 + ["cap", "upper"]
+_DOMAIN_STYLES = ["asis"] * 9 + ["cap", "upper", "tld"]
+
+
+def _cap(label):
+    return label[:1].upper() + label[1:]
+
+
+def recase_world(w, short_style, domain_style):
+    """host names are legitimately spelt with capitals (`hostnamectl set-hostname AppSrv07.Corp.Example.NET`):
+    re-spell the machine's short name and/or its domain - consistently in the system name and in the other hosts
+    of the domain, so that content and configuration still agree letter by letter"""
+    fq = w["fqdn"]
+    short, dom = (fq.split(".", 1) + [None])[:2]
+    nshort = {"cap": _cap(short), "upper": short.upper()}.get(short_style, short)
+    ndom = dom
+    if dom is not None:
+        labs = dom.split(".")
+        if domain_style == "cap":
+            ndom = ".".join(_cap(l) for l in labs)
+        elif domain_style == "upper":
+            ndom = dom.upper()
+        elif domain_style == "tld":
+            ndom = ".".join(labs[:-1] + [labs[-1].upper()])
+    out = dict(w)
+    out["fqdn"] = nshort if dom is None else nshort + "." + ndom
+    out["hosts"] = [h[:len(h) - len(dom)] + ndom for h in w["hosts"]] if dom is not None else list(w["hosts"])
+    return out
+
+
+@st.composite
+def _name_source(draw, fqdn):
+    if draw(tg.die(5)) < 2:
+        return None                                  # the name is handed to the cleaner (no caller in the repository does)
+    ns = dict(draw(st.sampled_from(OS_CONFIGS_FULL if "." in fqdn else OS_CONFIGS)))
+    ns["arg"] = draw(st.sampled_from(["omitted", "omitted", "none"]))
+    ns["display_name"] = draw(st.sampled_from([None, None, None, "shown-as-zq7", "zq7.inventory.test"]))
+    return ns
+
+
 @st.composite
 def _case(draw, tier):
-    w = draw(tg.world())
+    w = recase_world(draw(tg.world()), draw(st.sampled_from(_SHORT_STYLES)), draw(st.sampled_from(_DOMAIN_STYLES)))
     width = draw(tg.rarely(12))
     big = tier != "quick" and draw(tg.rarely(10))
     lines = draw(tg.content(w, max_lines=8 if big else 5, max_tokens=40 if big else 4, netstat=width))
@@ -587,7 +745,8 @@ def _case(draw, tier):
         allow = dict((k, draw(st.sampled_from([1, 2, 10000]))) for k in keys)
     case = {"fqdn": w["fqdn"], "obf": obf, "keywords": w["keywords"], "patterns": draw(_patterns(rendered)),
             "no_obfuscate": no_obf, "no_redact": draw(tg.rarely(7)), "allowlist": allow,
-            "entry": entry, "width": width, "final_newline": not draw(tg.rarely(4)), "lines": lines}
+            "entry": entry, "width": width, "final_newline": not draw(tg.rarely(4)), "lines": lines,
+            "name_source": draw(_name_source(w["fqdn"]))}
     if draw(tg.rarely(4)):
         case["prelude"] = draw(st.sampled_from([list(OBF_NAMES), ["hostname", "ip", "ipv6", "mac"], ["ip"], ["keyword", "password"]]))
     return case
@@ -645,6 +804,13 @@ REGRESSIONS = [
                                              {"conf": "up$", "ref": "up$"}]})),
     Reg("loopback-next-to-its-suffix", "clean", _reg([
         _ln(0, [["fill", "tcp 0 0 "], ["ip", "127.0.0.1"], ["fill", ":22   "], ["ip", "27.0.0.1"], ["fill", ":22 LISTEN"]])])),
+    Reg("system-name-from-os-capitals", "clean", _reg([
+        _ln(20, [["fill", "inet to "], ["fqdn", "NAS-7.Lab.Rhtest.NET"], ["fill", ", "], ["short", "NAS-7"], ["fill", ": "],
+                 ["host", "mx2.B2B.Lab.Rhtest.NET"], ["fill", " up"]]),
+        _ln(21, [["short", "NAS-7"], ["fill", "|"], ["ip", "172.16.9.1"]], "end")],
+        fqdn="NAS-7.Lab.Rhtest.NET", entry="file",
+        name_source={"gethostname": "short", "getfqdn": "fqdn", "byname": "gaierror", "arg": "omitted",
+                     "display_name": "shown-as-zq7"})),
     Reg("no-redact-still-obfuscates", "clean", _reg([
         _ln(5, [["fill", "hop "], ["ip", "192.168.1.77"], ["fill", " "], ["short", "web01"]])],
         no_redact=True, patterns={"mode": "plain", "items": ["hop"]}, entry="write")),
